@@ -124,10 +124,10 @@ __attribute__((no_sanitize("thread"))) inline void dump_current() {
   }
   syscall(SYS_close, fd);
 }
-inline void on_abort(int sig) {
+__attribute__((no_sanitize("thread"))) inline void on_abort(int) {
   dump_current();
-  signal(sig, SIG_DFL);
-  raise(sig);
+  // leave at once through a raw system call: signal()/raise() are intercepted by the sanitizers and may deadlock here
+  syscall(SYS_exit_group, 134);
 }
 }  // namespace detail
 
